@@ -4,7 +4,7 @@ import itertools
 import numpy as np
 from hypothesis import strategies as st
 
-from gen.crystals import CENTRING_VECS, det3, keys
+from gen.crystals import CENTRING_VECS, build_crystal, det3, keys
 from vlib.case import Out, Sub, rng_from
 
 PROPERTY = "C04"
@@ -15,7 +15,9 @@ RULE = ("'supercell_enum': ALL integer matrices with entries in [-1,1] (quick) /
         "'supercell_random': Hypothesis-drawn unit cells (1-4 atoms, extended symbols such as Cl1, custom masses, "
         "collinear/non-collinear moments, positions outside [0,1), sub-tolerance noise), matrices with entries in [-4,4], "
         "1<=det<=12, symprec in {1e-5,1e-3}. 'primitive': centred motifs (P,F,I,A,C,R; labelled species) with matching, "
-        "non-matching, auto and explicit primitive matrices on random supercells through the Phonopy constructor. "
+        "non-matching, auto and explicit primitive matrices on random supercells through the Phonopy constructor (also positions that "
+        "fulfil the centring only within the symprec given). 'auto_axes': primitive_matrix='auto' on generated crystals handed in as "
+        "conventional, permuted/rotated or re-tiled (supercell) cells, against the pure translations found by brute force. "
         "Non-trivial: non-diagonal S with det>=2, or S != S^T, or centring P, or SNF path. Distinct by (S, algorithm, "
         "cell spec).")
 ASSUMPTIONS = ["reference model: integer arithmetic on lattice cosets modulo S^T Z^3, done in numpy by the check itself"]
@@ -469,12 +471,124 @@ def run_primitive(spec):
                            (prim.magnetic_moments is not None and np.abs(prim2.magnetic_moments - prim.magnetic_moments[order]).max() > 1e-12)):
                 errs.append("with positions_to_reorder=%s: species/masses/moments do not follow the atoms" % order.tolist())
         reordered = True
+    noisy = False
+    if not errs and spec.get("loose") and which in ("right", "explicit") and not labelled_sub and cen != "P":
+        # the tolerance given to the constructor is the one the primitive cell is built with: positions that fulfil the centring only
+        # within 3e-3 Angstrom are a valid input at symprec=1e-2
+        nrng = rng_from(spec["key"], 31)
+        dcart = nrng.normal(size=(len(cell), 3))
+        dcart *= (1.5e-3 * nrng.random(len(cell)) / np.linalg.norm(dcart, axis=1))[:, None]
+        ncell = cell.copy()
+        ncell.scaled_positions = cell.scaled_positions + dcart @ np.linalg.inv(cell.cell)
+        try:
+            with contextlib.redirect_stdout(buf):
+                phn = Phonopy(ncell, supercell_matrix=np.diag([2, 1, 1]), primitive_matrix=pm, symprec=1e-2, log_level=0)
+            ncen = len(CENTRING_VECS[cen])
+            if len(phn.primitive) * ncen * 2 != len(phn.supercell):
+                errs.append("symprec=1e-2, positions off by <= 1.5e-3: %d primitive atoms for %d supercell atoms of a %s-centred cell" % (
+                    len(phn.primitive), len(phn.supercell), cen))
+        except Exception as e:
+            errs.append("symprec=1e-2 given to the constructor, positions fulfil the centring within 3e-3: rejected with %r" % (e,))
+        noisy = True
     if errs:
         return Out(ok=False, msg="primitive cell (centring %s, request %r, labels %s, S=%s, snf=%s): %s"
                    % (cen, pm if not isinstance(pm, np.ndarray) else "explicit", spec["labels"], S.tolist(), spec["snf"], "; ".join(errs)))
     nontriv = cen != "P" or bool(np.any(S - np.diag(np.diag(S))))
     return Out(ok=True, nontrivial=nontriv, classes=["cen:" + cen, "req:" + which, spec["labels"], "N:%d" % min(N, 12),
-                                                     "snf" if spec["snf"] else "classic"] + (["reordered"] if reordered else []) + (["symprec_1e-2_many_cells"] if spec.get("loose") else []))
+                                                     "snf" if spec["snf"] else "classic"] + (["reordered"] if reordered else []) + (["symprec_1e-2_many_cells"] if spec.get("loose") else []) + (["noisy_positions_within_symprec"] if noisy else []))
+
+
+# ------------------------------------------------------------------ primitive_matrix='auto' for any input cell
+
+
+@st.composite
+def auto_specs(draw, tier):
+    from gen.crystals import crystal_specs
+
+    T = draw(st.sampled_from([[1, 1, 1], [1, 1, 1], [2, 1, 1], [1, 2, 1], [1, 1, 2], [2, 2, 1], [1, 2, 3], [2, 2, 3], [3, 1, 1], [2, 2, 2]]))
+    return {"crystal": draw(crystal_specs(max_unit=8, kinds=("hall", "proto", "centred"))), "T": T, "skew": draw(st.sampled_from([0, 0, 1, -1])),
+            "symprec_noise": draw(st.sampled_from([0, 0, 1]))}
+
+
+def run_auto(spec):
+    """'auto' must give a really primitive cell that tiles the input cell, whatever cell of the crystal the user hands in (the
+    conventional cell, a permuted or rotated one, a supercell): oracle = the pure translations of the input cell found by brute force."""
+    from phonopy import Phonopy
+    from phonopy.structure.atoms import PhonopyAtoms
+    from phonopy.structure.cells import guess_primitive_matrix
+
+    c = build_crystal(spec["crystal"])
+    if c is None:
+        return Out(nontrivial=False, classes=["discarded_overlap"])
+    u = c["cell"]
+    T = np.diag(spec["T"]).astype(int)
+    if spec["skew"]:
+        T[0, 1] = spec["skew"]  # a non-diagonal re-tiling (still a cell of the same crystal)
+    if len(u) * int(round(abs(np.linalg.det(T)))) > 64:
+        T = np.eye(3, dtype=int)
+    # own re-tiling: lattice rows L' = T^T L, atoms = unit atoms + every lattice point inside the new cell
+    L = np.array(u.cell)
+    Ls = T.T @ L
+    nimg = int(round(abs(np.linalg.det(T))))
+    pts = []
+    rngi = range(-int(np.abs(T).sum()) - 1, int(np.abs(T).sum()) + 2)
+    Tinv = np.linalg.inv(T.T)
+    for n in itertools.product(rngi, repeat=3):
+        f = np.array(n) @ Tinv
+        if np.all(f > -1e-9) and np.all(f < 1 - 1e-9):
+            pts.append(n)
+    if len(pts) != nimg:
+        raise RuntimeError("own tiling found %d lattice points, expected %d" % (len(pts), nimg))
+    pos, sym, mas = [], [], []
+    for n in pts:
+        pos.extend(((u.scaled_positions + np.array(n)) @ Tinv).tolist())
+        sym.extend(u.symbols)
+        mas.extend(u.masses.tolist())
+    cell = PhonopyAtoms(symbols=sym, cell=Ls, scaled_positions=np.array(pos) % 1.0, masses=mas)
+    pos, num = cell.scaled_positions, cell.numbers
+    TOL = 1e-6
+    trans = []
+    for j in np.where((num == num[0]) & (np.abs(cell.masses - cell.masses[0]) < 1e-9))[0]:
+        t = pos[j] - pos[0]
+        d = pos[None, :, :] - (pos + t)[:, None, :]
+        d -= np.rint(d)
+        dist = np.linalg.norm(d @ Ls, axis=2)
+        k = np.argmin(dist, axis=1)
+        if (dist[np.arange(len(pos)), k] < TOL).all() and (num[k] == num).all() and (np.abs(cell.masses[k] - cell.masses) < 1e-9).all():
+            trans.append(t - np.floor(t + 1e-9))
+    trans = np.array(trans)
+    n_t = len(trans)
+    classes = ["kind:" + spec["crystal"]["kind"], "T:%s%s" % ("x".join(map(str, np.diag(T))), "+skew" if T[0, 1] else ""), "translations:%d" % min(n_t, 16)]
+    try:
+        M = guess_primitive_matrix(cell)
+        ph = Phonopy(cell, supercell_matrix=np.eye(3, dtype=int), primitive_matrix="auto", log_level=0)
+    except Exception as e:
+        if np.linalg.det(Ls) < 0 and "has to be larger than 0" in str(e):
+            # a left-handed basis: spglib's standardised cell is right-handed, so the matrix has a negative determinant, which the
+            # constructor refuses with a clear message (a rejection, not a mis-built cell)
+            return Out(ok=True, nontrivial=False, rejected=True, classes=classes + ["rejected_left_handed_basis"])
+        return Out(ok=False, classes=classes, msg="primitive_matrix='auto' raised for a valid cell of the crystal (%d atoms, %d pure translations): %r" % (len(cell), n_t, e))
+    errs = []
+    if abs(abs(np.linalg.det(M)) * n_t - 1) > 1e-6:
+        errs.append("|det| of the matrix is %.6f but the input cell contains %d lattice translations" % (abs(np.linalg.det(M)), n_t))
+    for k in range(3):
+        d = trans - M[:, k]
+        d -= np.rint(d)
+        if np.linalg.norm(d @ Ls, axis=1).min() > 1e-5:
+            errs.append("column %d %s is not a lattice translation of the input structure" % (k, np.round(M[:, k], 6).tolist()))
+    prim, sc = ph.primitive, ph.supercell
+    if len(prim) * n_t != len(sc):
+        errs.append("%d primitive atoms x %d translations != %d atoms" % (len(prim), n_t, len(sc)))
+    else:
+        pofs = np.array([prim.p2p_map[i] for i in prim.s2p_map])
+        delta = (sc.positions - prim.positions[pofs]) @ np.linalg.inv(prim.cell)
+        if np.abs(delta - np.rint(delta)).max() > 1e-6:
+            errs.append("cell atoms are not primitive atoms plus primitive lattice vectors")
+        if [sc.symbols[i] for i in prim.p2s_map] != list(prim.symbols):
+            errs.append("species mismatch through p2s_map")
+    if errs:
+        return Out(ok=False, classes=classes, msg="primitive_matrix='auto' on a %d-atom cell (re-tiling %s of the generated cell): %s" % (len(cell), T.tolist(), "; ".join(errs)))
+    return Out(ok=True, nontrivial=n_t >= 2, classes=classes)
 
 
 SUBCHECKS = [
@@ -487,4 +601,7 @@ SUBCHECKS = [
     Sub("primitive", run=run_primitive, strategy=prim_specs, examples={"quick": 1500, "thorough": 40000},
         shards={"quick": 8, "thorough": 16}, budget={"quick": 100, "thorough": 1500},
         what="primitive cell tiles the supercell; maps consistent; translation permutations form a simply transitive group; invalid requests rejected"),
+    Sub("auto_axes", run=run_auto, strategy=auto_specs, examples={"quick": 600, "thorough": 12000}, shards={"quick": 6, "thorough": 16},
+        budget={"quick": 100, "thorough": 1500}, builds=["omp"],
+        what="primitive_matrix='auto' for conventional, permuted/rotated and re-tiled (supercell) input cells: really primitive, columns are lattice translations, tiles the input"),
 ]
